@@ -135,11 +135,15 @@ void ddp_string_string_verkettet(ddpstring *ret, ddpstring *str1, ddpstring *str
 	DDP_DBGLOG("_ddp_string_string_verkettet: %p, %p, ret: %p", str1, str2, ret);
 
 	if (ddp_string_empty(str1) && ddp_string_empty(str2)) {
+		// an empty string may still own a buffer (e.g. "\0")
+		ddp_free_string(str1);
+		*str1 = DDP_EMPTY_STRING;
 		*ret = DDP_EMPTY_STRING;
 		return;
 	} else if (ddp_string_empty(str1)) {
 		ddp_deep_copy_string(ret, str2);
 		ddp_free_string(str1);
+		*str1 = DDP_EMPTY_STRING;
 		return;
 	} else if (ddp_string_empty(str2)) {
 		*ret = *str1;
@@ -168,6 +172,7 @@ void ddp_char_string_verkettet(ddpstring *ret, ddpchar c, ddpstring *str) {
 
 	if (ddp_string_empty(str)) {
 		ddp_free_string(str);
+		*str = DDP_EMPTY_STRING;
 		ddp_string_from_constant(ret, temp);
 		return;
 	}
@@ -194,6 +199,7 @@ void ddp_string_char_verkettet(ddpstring *ret, ddpstring *str, ddpchar c) {
 
 	if (ddp_string_empty(str)) {
 		ddp_free_string(str);
+		*str = DDP_EMPTY_STRING;
 		ddp_string_from_constant(ret, temp);
 		return;
 	}
